@@ -217,7 +217,29 @@ def cmp_hs_dial(prop, case, impl, model):
         return [('violation', 'hs-dial:key', 'the Sec-WebSocket-Key sent is not one base64 value of 16 bytes')]
     return _cmp_fields('hs-dial', ['ok', 'subproto', 'co', 'method', 'host', 'req'], {})(prop, case, impl, model)
 
+def cmp_sched(prop, case, impl, model):
+    if 'PANIC' in impl:
+        return [('violation', 'sched:panic', 'the library panicked: ' + impl['PANIC'][:300])]
+    if 'hang' in impl:
+        return [('violation', 'sched:hang', 'concurrent program did not terminate: ' + impl['hang'])]
+    if 'dialerr' in impl or 'modelerror' in model:
+        return [('disagree', 'sched:setup', str(impl.get('dialerr')) + ' ' + str(model.get('modelerror'))[:300])]
+    out = []
+    j = model.get('judge', '?')
+    if j != 'ok' and prop in ('C05', 'C16'):
+        out.append(('violation', 'sched:' + j.replace('violation:', ''), 'reference decoder on the bytes written under concurrency: ' + j))
+    g = model.get('goroutines', '?')
+    if g != 'ok' and prop in ('C20', 'C05'):
+        out.append(('violation', 'sched:goroutine-' + g.split(':')[0], 'library goroutines after CloseNow returned: ' + g))
+    if not out:
+        if model.get('replay') != 'ok':
+            out.append(('disagree', 'sched:replay:' + re.sub(r't\d+', 't', model.get('replay', '?')), 'the observed schedule is not an execution of the interleaving model: ' + model.get('replay', '?')))
+        elif model.get('modelprops') != 'true,true,true':
+            out.append(('disagree', 'sched:modelprops', 'the replayed model run violates its own proved invariants?! ' + model.get('modelprops', '?')))
+    return out
+
 COMPARE = {
+    'sched': cmp_sched,
     'hs-accept': cmp_hs_accept,
     'hs-dial': cmp_hs_dial,
     'pair': cmp_pair,
@@ -235,7 +257,7 @@ def nontrivial(suite, case, impl):
         return n >= 4
     if suite == 'wire-in':
         return case.get('ops', '').count('R') > 1 and len(case.get('stream', '')) > 16
-    if suite in ('pair', 'hs-accept', 'hs-dial'):
+    if suite in ('pair', 'hs-accept', 'hs-dial', 'sched'):
         return True
     if suite == 'wire-out':
         return int(impl.get('n', '0') or 0) > 200 or '|' in case.get('prog', '')
@@ -264,6 +286,22 @@ HS_TRUST = ['Handshake model hand-written from accept.go / dial.go / compress.go
             'the SecWebSocketKey is crypto/rand input: the model reasons about the relation between key and accept value only']
 
 PROPS = {
+    'C05': dict(
+        suites=['sched'],
+        rule='sched suite: 2-8 concurrent writer goroutines (Write and streaming Writer with 1-4 chunks; every message tagged with writer id and sequence number, length- and content-distinct), '
+             'a pinger, a CloseRead reader, and a closer (Close / CloseNow / peer Close frame / none) fired after a seeded delay, on both roles and all compression modes; the transport yields or sleeps at seeded '
+             'points inside the library\'s writes; the verif hooks record the order of lock / unlock / frame / close events. Judge: the raw peer\'s recording parses, is conformant (frames atomic, messages '
+             'unmixed), every decoded message is exactly one written message, per-writer order, acknowledged messages present, nothing after Close. Tie: the observed schedule is replayed event by event in '
+             'Model/Sched.v and must be an execution of it with the same frame order. non-trivial = every case (>= 2 writers); distinct = distinct case line',
+        trusted=COMMON_TRUSTED + ['Model/Sched.v is a hand-written interleaving semantics of conn.go mu / close and write.go writeFrame / msgWriter; tie = replay of hook-recorded schedules (the hooks record an event just after the action, '
+                                  'so a Closed event may trail the close by a few instructions: the replay may perform a close early when the library already behaves closed)', FLATE_ASSUME],
+        assumptions=['Go channel / select semantics as encoded in Sched.step (a lock may fail whenever the connection is closed)', 'the Go memory model is outside the model: absence of data races is checked by go test -race on the same programs in the thorough tier only'],
+        not_covered=['data-race freedom in the Go memory model (race detector, sampled schedules, thorough tier)', 'a read racing Close (read-side interleavings are not in Sched.v)'],
+        level_text='Theorems for ALL schedules, thread counts and programs of the interleaving model: frames are written atomically, data frames of two messages never interleave, each writer\'s writes keep program order, '
+                   'the frame lock is held wherever frame bytes are produced. Tie: hook-recorded schedules of real concurrent runs are accepted by the model and reproduce the frame order; the wire is judged by the extracted decoder.',
+        level_note='partial: read-side races and memory-model races are not covered by a theorem.',
+        technique='Coq proof (5-part invariant over a small-step interleaving semantics) + replay of recorded schedules + decoder judge on concurrent runs',
+    ),
     'C06': dict(
         suites=['close', 'wire-out'],
         rule='close suite: Close(code, reason) for every boundary of the status-code ranges (all 65536 codes in the thorough tier) x reason lengths {0,1,122,123,124,130} and random '
@@ -341,15 +379,15 @@ PROPS = {
         technique='Coq proofs over a Gallina model of the negotiation (finite mode grid by computation, offers by induction) + differential runs through Accept/Dial + end-to-end exchanges',
     ),
     'C16': dict(
-        suites=['close', 'wire-out'],
+        suites=['close', 'wire-out', 'sched'],
         rule='close suite (local Close with every code class, peer-initiated Close frames valid and malformed — the latter answered by an error close that leaves the connection open — '
              'every order of Close/CloseNow, each followed by Write/Writer/Read/Ping/Close/CloseNow sequences) + wire-out programs ending in Close with an echoing peer; the raw peer records '
              'every frame until the transport ends and the judge counts Close frames and data frames after the first Close. non-trivial = every case; distinct = distinct case line',
-        trusted=COMMON_TRUSTED + ['concurrent writers racing Close are covered by the sched suite when present; this check covers sequential histories incl. error-triggered closes'],
+        trusted=COMMON_TRUSTED + ['Model/Sched.v interleaving semantics, tied by replaying hook-recorded schedules (see C05)'],
         assumptions=['the interleaving part of the quantifier (Write racing Close in another goroutine) is modelled by the single close-sent flag consulted under writeFrameMu; see C05'],
-        level_text='Theorem C16_nothing_after_close: for every sequence of write-side operations (any order, incl. after Close), both roles, every configuration and compressor behaviour, '
-                   'only Pings/Pongs follow a Close frame on the wire. Tie: the library\'s recorded frames against echoing peers, sequential histories incl. protocol-error closes.',
-        level_note='the theorem is about the sequential Writer model (one flag under the frame lock); all-interleavings statement pending in the scheduler model.',
+        level_text='Theorems: C16_nothing_after_close (every sequential program) and C16_all_interleavings (every schedule of any number of writers, pingers, closers, the read side echoing/answering with a Close, '
+                   'outside closes): only Pings/Pongs follow a Close frame on the wire. Tie: the library\'s recorded frames against echoing peers, sequential histories incl. protocol-error closes.',
+        level_note='sequential Writer model theorem + all-interleavings theorem on Model/Sched.v (close-sent flag read and set under the frame lock).',
         technique='Coq proof (invariant over operation sequences) + differential run against a recording raw peer',
     ),
     'C03': dict(
